@@ -166,6 +166,25 @@ def keys_read(ctx, cname, seen=None):
                 except NotConst:
                     pass
         break_after = False
+        # helpers that receive the values dictionary (self._init_points(values))
+        for n in ast.walk(fn):
+            if isinstance(n, ast.Call) and isinstance(n.func, ast.Attribute) and isinstance(n.func.value, ast.Name) and n.func.value.id == "self" \
+                    and len(n.args) == 1 and ast.unparse(n.args[0]) == vp and n.func.attr in ci.methods and n.func.attr != "property_by_values":
+                h = ci.methods[n.func.attr]
+                hp = h.args.args[1].arg
+                for x in ast.walk(h):
+                    k = None
+                    if isinstance(x, ast.Subscript) and ast.unparse(x.value) == hp:
+                        k = x.slice
+                    elif isinstance(x, ast.Compare) and isinstance(x.ops[0], ast.In) and ast.unparse(x.comparators[0]) == hp:
+                        k = x.left
+                    if k is not None:
+                        try:
+                            v = ctx.m.const(k)
+                            if isinstance(v, str):
+                                out.add(v)
+                        except NotConst:
+                            pass
         # follow explicit Base.property_by_values(self, values) calls
         for n in ast.walk(fn):
             if isinstance(n, ast.Call) and isinstance(n.func, ast.Attribute) and n.func.attr == "property_by_values" and isinstance(n.func.value, ast.Name) and n.func.value.id in ctx.m.classes:
